@@ -36,8 +36,13 @@ def run(ctx) -> None:
                                       "to the read that by-passes all bindings, the branch outcomes taken are contradictory (same "
                                       "test taken both ways, or truth tests of one subject with an empty intersection over "
                                       "{None, falsy, truthy}); otherwise repr can raise UnboundLocalError", 1)
+    ctx.rule("a.element-truth", "the display code never takes the truth value of a comparison (==, !=, <, ...) with a cell value of "
+                                "unknown type, nor of the cell itself: a cell of an object column may be a Vector / Table, whose == gives "
+                                "a vector and whose truth value raises TypeError; identity tests, isinstance and tests under an "
+                                "established scalar kind of the column are fine", 1)
     ctx.section("definite", _definite, ctx)
     ctx.section("partial", _partial, ctx)
+    ctx.section("element-truth", _element_truth, ctx)
     ctx.section("tail", _tail, ctx)
     ctx.section("empty", _empty, ctx)
     ctx.section("footer", _footer, ctx)
@@ -306,6 +311,80 @@ def _partial(ctx) -> None:
     if n == 0:
         # nothing partial is applied to element values any more: vacuous but fine
         ctx.ob("a.partial-ops", "display", "none", True, "no int()/round()/floor() on element values in the display code")
+
+
+_SCALAR_KINDS = {"int", "float", "str", "bool", "complex", "date", "datetime", "bytes"}
+
+
+def _element_truth(ctx) -> None:
+    """Decided on the symx event log of display._format_column (cell formatters introduced later are evaluated in line): every
+    condition literal that involves a cell value is inspected."""
+    from ..sites2 import interp_of
+    from ..symx import deep_subterms, flatten_conds, show, subterms
+    prog = ctx.prog
+    f = prog.func("display._format_column")
+    it = interp_of(prog, f)
+    COL = ("param", f.params[0])
+    # cell values: elements of loops whose iterable derives from the column's storage
+    cell_loops = {L for L, lp in it.loops.items()
+                  if lp.iter is not None and any(x == ("attr", COL, "_underlying") for x in deep_subterms(it, lp.iter))}
+    if not cell_loops:
+        raise AnalysisError("_format_column: the loop over the cell values was not found")
+
+    def is_cell(t) -> bool:
+        return t[0] == "elem" and t[2] in cell_loops
+
+    def scalar_established(conds) -> bool:
+        for t, pol in flatten_conds(conds):
+            if not pol:
+                continue
+            if t[0] == "cmp" and t[1] in ("Is", "Eq") and t[3][0] == "name" and t[3][1] in _SCALAR_KINDS \
+                    and t[2][0] == "attr" and t[2][2] == "kind":
+                return True
+            if t[0] == "call" and t[1] == ("name", "isinstance") and len(t[2]) == 2 and is_cell(t[2][0]):
+                ks = t[2][1]
+                names = [ks] if ks[0] == "name" else list(ks[1]) if ks[0] == "tuple" else []
+                if names and all(n_[0] == "name" and n_[1] in _SCALAR_KINDS for n_ in names):
+                    return True
+        return False
+    problems = []
+    seen = set()
+    n = 0
+    for e in it.events:
+        for i, (t, pol) in enumerate(e.conds):
+            if (t, i) in seen:
+                continue
+            seen.add((t, i))
+            before = e.conds[:i]
+            # walk the boolean structure: every operand of and/or/not is a truth-valued use
+            stack = [(t, before)]
+            while stack:
+                u, ctxc = stack.pop()
+                if u[0] == "bool":
+                    acc = ctxc
+                    for x in u[2]:
+                        stack.append((x, acc))
+                        acc = acc + ((x, u[1] == "and"),)       # later operands run only if the earlier ones allow
+                    continue
+                if u[0] == "un" and u[1] == "Not":
+                    stack.append((u[2], ctxc))
+                    continue
+                bad = None
+                if is_cell(u):
+                    bad = f"the truth value of the cell itself (`{show(u, it)[-30:]}`)"
+                elif u[0] == "cmp" and u[1] not in ("Is", "IsNot") and (is_cell(u[2]) or is_cell(u[3])):
+                    bad = f"the truth value of `<cell> {u[1]} {show(u[3] if is_cell(u[2]) else u[2], it)[:20]}`"
+                if bad is None:
+                    continue
+                n += 1
+                if not scalar_established(ctxc):
+                    problems.append(f"{bad} is taken (line {getattr(e.node, 'lineno', '?')}) before the kind of the cell is known: a Vector / "
+                                    f"Table cell of an object column compares to a vector, whose truth value raises TypeError - repr "
+                                    f"would fail")
+    seenp = set()
+    problems = [p_ for p_ in problems if not (p_ in seenp or seenp.add(p_))]
+    ctx.ob("a.element-truth", f, "cells", not problems, f"{n} truth-valued use(s) of cell values, each under an established scalar kind",
+           f.node, message="; ".join(problems[:2]))
 
 
 def _is_finite_test(e: ast.AST, v: str) -> bool:
@@ -709,7 +788,29 @@ def _preview(ctx) -> None:
         tail = ("sub", vals, ("slice", ("un", "USub", K), SNONE, SNONE))
         okh = full[0] == "bin" and full[1] == "Add" and full[2][0] == "bin" and full[2][1] == "Add" \
             and seq_of(full[2][2]) == head and seq_of(full[3]) == tail \
-            and full[2][3][0] == "obj" and it.objs[full[2][3][1]].init == (const("..."),)
+            and full[2][3][0] == "obj" and len(it.objs[full[2][3][1]].init) == 1
+        if okh:
+            # the one element between head and tail is the marker that is rendered as '...': the text itself, or an object
+            # that the cell formatting recognises (by identity or equality) and renders as '...'
+            M = it.objs[full[2][3][1]].init[0]
+            rendered = False
+            for e in it.events:
+                v = e.value if e.kind == "elem" else (e.term[2][0] if e.kind == "call" and e.term[1][0] == "attr"
+                                                      and e.term[1][2] == "append" and len(e.term[2]) == 1 else None)
+                if v != const("...") or not e.conds:
+                    continue
+                t, pol = e.conds[-1]
+                if pol and t[0] == "cmp" and t[1] in ("Is", "Eq") and M in (t[2], t[3]):
+                    rendered = True
+            for e in it.events:
+                for top in (e.value, e.term):
+                    if top is None:
+                        continue
+                    for x in subterms(top):
+                        if x[0] == "ifexp" and x[2] == const("...") and x[1][0] == "cmp" and x[1][1] in ("Is", "Eq") and M in (x[1][2], x[1][3]):
+                            rendered = True
+            if not rendered:
+                okh = False
         if not okh:
             problems.append(f"the truncated preview is `{show(full, it)[:90]}`, expected head k + ['...'] + tail k (same size on both sides)")
         if seq_of(short_) != vals:
@@ -860,8 +961,14 @@ MUTANTS = [
     dict(id="footer-uses-displayed-dtypes", module=_D, old="		unique_dtypes = set(dtypes_all)", new="		unique_dtypes = set(dtypes_displayed)",
          rules=["c.footer"]),
     dict(id="footer-single-from-displayed", module=_D, old="f\"<{dtypes_all[0]}>\"", new="f\"<{dtypes_displayed[0]}>\"", rules=["c.footer"]),
-    dict(id="head-tail-asymmetric", module=_D, old="		preview = list(vals[:max_preview]) + ['...'] + list(vals[-max_preview:])",
-         new="		preview = list(vals[:max_preview]) + ['...'] + list(vals[-(max_preview + 1):])", rules=["d.preview", "b.tail-slice"]),
+    dict(id="head-tail-asymmetric", module=_D, old="		preview = list(vals[:max_preview]) + [_ELLIPSIS] + list(vals[-max_preview:])",
+         new="		preview = list(vals[:max_preview]) + [_ELLIPSIS] + list(vals[-(max_preview + 1):])", rules=["d.preview", "b.tail-slice"]),
+    dict(id="ellipsis-marker-compared-by-value", module=_D,
+         old="		preview = list(vals[:max_preview]) + [_ELLIPSIS] + list(vals[-max_preview:])\n	else:\n		preview = list(vals)\n\n	# Type-sensitive formatting\n	out = []\n	for v in preview:\n		if v is _ELLIPSIS:",
+         new="		preview = list(vals[:max_preview]) + ['...'] + list(vals[-max_preview:])\n	else:\n		preview = list(vals)\n\n	# Type-sensitive formatting\n	out = []\n	for v in preview:\n		if v == '...':",
+         rules=["a.element-truth"], desc="the defect repaired by fix cd85498: repr of an object vector with a Vector cell raises"),
+    dict(id="cell-truthiness-before-kind", module=_D, old="		elif v is None:\n			out.append('None')",
+         new="		elif v is None or not v and v != 0:\n			out.append('None')", rules=["a.element-truth"]),
     dict(id="header-shows-sanitised", module=_D, old="		disp = col._name or \"\"", new="		disp = san or \"\"", rules=["e.headers"]),
     dict(id="width-from-first-cell", module=_D, old="		body_width = max(len(s) for s in formatted_cols[c]) if formatted_cols[c] else 0",
          new="		body_width = len(formatted_cols[c][0])", rules=["b.empty-guards"]),
